@@ -97,6 +97,7 @@ int main(int argc, char** argv)
       sh->idx = next; sh->printed = 0; sh->step = 0;
       c10::g_step = &sh->step;
       std::fflush(stdout);
+      static const unsigned caseTimeout = [] { const char* e = ::getenv("VERIF_CASE_TIMEOUT"); const int v = e ? std::atoi(e) : 0; return static_cast<unsigned>(v > 0 ? v : 120); }();
       const pid_t pid = ::fork();
       if (pid == 0)
       {
@@ -104,7 +105,7 @@ int main(int argc, char** argv)
          for (size_t i = next; i < cases.size(); ++i)
          {
             sh->idx = i; sh->printed = 0; sh->step = 0;
-            ::alarm(20);
+            ::alarm(caseTimeout);   // wall clock: generous, the machine may be busy with other checks
             const std::string res = run_case(cases[i]);
             std::printf("%s %s\n", cases[i][0].c_str(), res.c_str());
             std::fflush(stdout);
